@@ -1158,6 +1158,65 @@ fn closure_sets(font: &FontRef, gsub: &[u32]) -> Option<(Vec<u32>, Vec<u32>, Vec
     Some((colred.iter().map(|g| g.to_u32()).collect(), layers.iter().collect(), pals.iter().collect(), vars.iter().collect()))
 }
 
+/// distribution counters over the emitted COLR table (formats of the fixed-size paint records reachable
+/// from the lists, number of clips)
+fn count_output(s: &mut Session, c: &read_fonts::tables::colr::Colr) {
+    use read_fonts::tables::colr::Paint;
+    fn walk(s: &mut Session, p: &Paint, depth: usize) {
+        if depth > 70 {
+            return;
+        }
+        s.count(&format!("colr:outfmt:{:02}", p.format()));
+        let kids: Vec<Paint> = match p {
+            Paint::Glyph(t) => t.paint().ok().into_iter().collect(),
+            Paint::Transform(t) => t.paint().ok().into_iter().collect(),
+            Paint::VarTransform(t) => t.paint().ok().into_iter().collect(),
+            Paint::Translate(t) => t.paint().ok().into_iter().collect(),
+            Paint::VarTranslate(t) => t.paint().ok().into_iter().collect(),
+            Paint::Scale(t) => t.paint().ok().into_iter().collect(),
+            Paint::VarScale(t) => t.paint().ok().into_iter().collect(),
+            Paint::ScaleAroundCenter(t) => t.paint().ok().into_iter().collect(),
+            Paint::VarScaleAroundCenter(t) => t.paint().ok().into_iter().collect(),
+            Paint::ScaleUniform(t) => t.paint().ok().into_iter().collect(),
+            Paint::VarScaleUniform(t) => t.paint().ok().into_iter().collect(),
+            Paint::ScaleUniformAroundCenter(t) => t.paint().ok().into_iter().collect(),
+            Paint::VarScaleUniformAroundCenter(t) => t.paint().ok().into_iter().collect(),
+            Paint::Rotate(t) => t.paint().ok().into_iter().collect(),
+            Paint::VarRotate(t) => t.paint().ok().into_iter().collect(),
+            Paint::RotateAroundCenter(t) => t.paint().ok().into_iter().collect(),
+            Paint::VarRotateAroundCenter(t) => t.paint().ok().into_iter().collect(),
+            Paint::Skew(t) => t.paint().ok().into_iter().collect(),
+            Paint::VarSkew(t) => t.paint().ok().into_iter().collect(),
+            Paint::SkewAroundCenter(t) => t.paint().ok().into_iter().collect(),
+            Paint::VarSkewAroundCenter(t) => t.paint().ok().into_iter().collect(),
+            Paint::Composite(t) => t.source_paint().ok().into_iter().chain(t.backdrop_paint().ok()).collect(),
+            _ => vec![],
+        };
+        for k in &kids {
+            walk(s, k, depth + 1);
+        }
+    }
+    if let Some(Ok(l)) = c.base_glyph_list() {
+        for r in l.base_glyph_paint_records() {
+            if let Ok(p) = r.paint(l.offset_data()) {
+                walk(s, &p, 0);
+            }
+        }
+    }
+    if let Some(Ok(l)) = c.layer_list() {
+        for i in 0..l.num_layers() as usize {
+            if let Ok(p) = l.paints().get(i) {
+                walk(s, &p, 0);
+            }
+        }
+    }
+    if let Some(Ok(l)) = c.clip_list() {
+        s.count(&format!("colr:out-clips:{}", l.num_clips().min(9)));
+    }
+    s.count(if c.var_index_map().is_some() { "colr:out:dsim" } else { "colr:out:no-dsim" });
+    s.count(if c.item_variation_store().is_some() { "colr:out:store" } else { "colr:out:no-store" });
+}
+
 /// is the well-formedness of the font good enough to demand success (no refusal / panic)?
 #[derive(Clone, Copy, PartialEq)]
 enum Trust {
@@ -1289,6 +1348,22 @@ fn run_request(s: &mut Session, label: &str, data: &[u8], req: &Req, trust: Trus
             }
             None => s.count("cpal:skip:outcome-not-attributable"),
         }
+    }
+    // ---- distribution: paint formats / clips of the emitted table
+    if let Some(sub) = sub_font {
+        if let Ok(sf) = FontRef::new(sub) {
+            if let Ok(c) = sf.colr() {
+                count_output(s, &c);
+            }
+        }
+    }
+    // a corrupted table only has to be survived without a panic
+    if trust == Trust::Hostile {
+        s.oracle("colr-subset-no-panic", shot.is_ok(), || input.clone(), || match &shot {
+            Err((m, file)) => format!("panic '{m}' in {file}"),
+            _ => String::new(),
+        });
+        return;
     }
     // ---- oracles on the re-opened subset
     let Some(sub) = sub_font else {
@@ -1579,12 +1654,223 @@ fn run_font(s: &mut Session, r: &mut Rng, label: &str, data: &[u8], nreq: usize,
     }
 }
 
+
+// ---------------------------------------------------------------------------------------------
+// hand-made families aimed at single branches
+// ---------------------------------------------------------------------------------------------
+
+fn one_palette(num_entries: u16) -> CpalSpec {
+    CpalSpec {
+        version: 0,
+        num_entries,
+        firsts: vec![0],
+        records: (0..num_entries).map(|i| [i as u8, (i >> 8) as u8, 0x55, 0xff]).collect(),
+        types: None,
+        labels: None,
+        entry_labels: None,
+    }
+}
+
+fn push(c: &mut ColrSpec, n: PN) -> usize {
+    c.nodes.push(n);
+    c.nodes.len() - 1
+}
+
+fn fill(c: &mut ColrSpec, gid: u16, pal: u16) -> usize {
+    let leaf = push(c, PN::Solid { pal, alpha: 0x4000, var: None });
+    push(c, PN::Glyph { gid, child: leaf })
+}
+
+fn all_requests(n: usize, colour: &[u32]) -> Vec<Req> {
+    let mut v = vec![
+        Req { gids: (0..n as u32).collect(), unicodes: vec![], flags: 0 },
+        Req { gids: (0..n as u32).step_by(2).collect(), unicodes: vec![], flags: F_RETAIN_GIDS },
+    ];
+    for g in colour {
+        v.push(Req { gids: vec![*g], unicodes: vec![], flags: 0 });
+        v.push(Req { gids: vec![*g], unicodes: vec![], flags: F_RETAIN_GIDS });
+    }
+    v
+}
+
+fn run_special(s: &mut Session, r: &mut Rng, th: bool) {
+    // (a) PaintColrLayers with numLayers = 0 (paints nothing), as a root and inside a composite
+    {
+        let mut c = ColrSpec::default();
+        let f1 = fill(&mut c, 2, 0);
+        c.layers = vec![f1];
+        c.has_layer_list = true;
+        let empty = push(&mut c, PN::ColrLayers { num: 0, first: 7 });
+        let empty0 = push(&mut c, PN::ColrLayers { num: 0, first: 0 });
+        let comp = push(&mut c, PN::Composite { src: f1, mode: 3, backdrop: empty });
+        let one = push(&mut c, PN::ColrLayers { num: 1, first: 0 });
+        c.v1_base = vec![(4, empty), (5, comp), (6, one), (7, empty0)];
+        let data = syn_font("syn:colr-empty-colrlayers", 10, Some(colr_bytes(&c)), Some(cpal_bytes(&one_palette(2))), 0);
+        for q in all_requests(10, &[4, 5, 6, 7]) {
+            run_request(s, "syn:colr-empty-colrlayers", &data, &q, Trust::WellFormed, true, true);
+        }
+    }
+    // (b) PaintColrGlyph to a glyph without COLRv1 record (plain glyph / COLRv0 glyph): skrifa reports
+    //     GlyphNotFound for such a glyph; the rest of the font must survive
+    {
+        let mut c = ColrSpec::default();
+        let f1 = fill(&mut c, 2, 0);
+        let to_plain = push(&mut c, PN::ColrGlyph { gid: 3 });
+        let to_v0 = push(&mut c, PN::ColrGlyph { gid: 8 });
+        c.v0 = vec![(8, vec![(2, 1)])];
+        c.v1_base = vec![(4, f1), (5, to_plain), (6, to_v0)];
+        let data = syn_font("syn:colr-colrglyph-dangling", 10, Some(colr_bytes(&c)), Some(cpal_bytes(&one_palette(2))), 0);
+        for q in all_requests(10, &[4, 5, 6, 8]) {
+            run_request(s, "syn:colr-colrglyph-dangling", &data, &q, Trust::Hostile, true, true);
+        }
+    }
+    // (c) cycles through PaintColrGlyph and PaintColrLayers (legal input; skrifa stops with an error)
+    {
+        let mut c = ColrSpec::default();
+        let f1 = fill(&mut c, 2, 0);
+        let to5 = push(&mut c, PN::ColrGlyph { gid: 5 });
+        let to4 = push(&mut c, PN::ColrGlyph { gid: 4 });
+        let w = push(&mut c, PN::Simple { fmt: 14, child: to4, vals: vec![10, 20], var: None });
+        let self_layers = push(&mut c, PN::ColrLayers { num: 2, first: 0 });
+        c.layers = vec![f1, self_layers];
+        c.has_layer_list = true;
+        c.v1_base = vec![(4, to5), (5, w), (6, self_layers)];
+        let data = syn_font("syn:colr-cycles", 10, Some(colr_bytes(&c)), Some(cpal_bytes(&one_palette(2))), 0);
+        for q in all_requests(10, &[4, 5, 6]) {
+            run_request(s, "syn:colr-cycles", &data, &q, Trust::WellFormed, true, true);
+        }
+    }
+    // (d) nesting depth around the limits (read-fonts closure: 64 levels, skrifa traversal: 64)
+    for depth in [30usize, 60, 61, 62, 63, 64, 65, 66, 70] {
+        let mut c = ColrSpec::default();
+        // the innermost fill uses glyph 3 and palette entry 1, referenced nowhere else
+        let mut k = fill(&mut c, 3, 1);
+        for i in 0..depth {
+            k = push(&mut c, PN::Simple { fmt: 14, child: k, vals: vec![i as i16, 1], var: None });
+        }
+        let shallow = fill(&mut c, 2, 0);
+        c.v1_base = vec![(4, k), (5, shallow)];
+        let label = format!("syn:colr-depth-{depth}");
+        let data = syn_font(&label, 8, Some(colr_bytes(&c)), Some(cpal_bytes(&one_palette(2))), 0);
+        for q in all_requests(8, &[4, 5]) {
+            run_request(s, &label, &data, &q, Trust::WellFormed, true, false);
+        }
+    }
+    // (e) many version 0 base glyph records, few kept glyphs (binary-search branch of serialize_v0)
+    {
+        let n = 300usize;
+        let mut c = ColrSpec::default();
+        for g in (10..290u16).step_by(1) {
+            if g % 3 != 0 {
+                c.v0.push((g, vec![(1 + g % 5, g % 7), (6 + g % 3, 0xFFFF)]));
+            }
+        }
+        let data = syn_font("syn:colr-v0-many", n, Some(colr_bytes(&c)), Some(cpal_bytes(&rand_cpal(r, 7))), 0);
+        for _ in 0..(if th { 60 } else { 12 }) {
+            let k = r.range(1, 40) as usize;
+            let mut gids: Vec<u32> = (0..k).map(|_| r.range(5, 295) as u32).collect();
+            gids.sort();
+            gids.dedup();
+            let q = Req { gids, unicodes: vec![], flags: rand_flags(r) };
+            run_request(s, "syn:colr-v0-many", &data, &q, Trust::WellFormed, true, false);
+        }
+        let q = Req { gids: (0..n as u32).collect(), unicodes: vec![], flags: 0 };
+        run_request(s, "syn:colr-v0-many", &data, &q, Trust::WellFormed, true, true);
+    }
+    // (f) clip list: one box object shared by several ranges, ranges over kept and dropped glyphs,
+    //     identical box contents at different places, format 2 boxes
+    for variant in 0..(if th { 40 } else { 8 }) {
+        let n = 40usize;
+        let mut c = ColrSpec::default();
+        let mut base = vec![];
+        for g in 5..35u16 {
+            let k = fill(&mut c, 1 + g % 4, g % 3);
+            base.push((g, k));
+        }
+        c.v1_base = base;
+        let variable = variant % 2 == 1;
+        let o = GenOpts { n_glyphs: n, num_entries: 3, variable, with_dsim: false, rows: vec![9], dsim_len: 0 };
+        c.boxes = vec![
+            ClipBoxSpec { fmt: 1, c: [0, 0, 100, 100], var: 0 },
+            ClipBoxSpec { fmt: 1, c: [0, 0, 100, 100], var: 0 },
+            ClipBoxSpec { fmt: if variable { 2 } else { 1 }, c: [-5, -5, 50, 60], var: rand_var(r, &o, 4) },
+            ClipBoxSpec { fmt: if variable { 2 } else { 1 }, c: [-5, -5, 50, 60], var: 0xFFFF_FFFF },
+        ];
+        let mut g = 3u16;
+        while g < 38 {
+            let len = r.range(0, 6) as u16;
+            let end = (g + len).min(39);
+            c.clips.push((g, end, r.below(4) as usize));
+            g = end + 1 + if r.chance(1, 3) { r.range(1, 3) as u16 } else { 0 };
+        }
+        c.clip_format = 1;
+        if variable {
+            c.store = Some(rand_store(r, 2, &[9]));
+        }
+        let label = format!("syn:colr-clips#{variant}");
+        let data = syn_font(&label, n, Some(colr_bytes(&c)), Some(cpal_bytes(&one_palette(3))), if variable { 2 } else { 0 });
+        run_font(s, r, &label, &data, if th { 8 } else { 5 }, Trust::WellFormed, true);
+    }
+    // (g) CPAL: many partially overlapping palettes whose un-shared copy needs 65536 colour records or more
+    {
+        let mut c = ColrSpec::default();
+        let layers: Vec<(u16, u16)> = (0..256u16).map(|e| (1, e)).collect();
+        c.v0 = vec![(2, layers), (3, vec![(1, 5)])];
+        let npal = 257usize;
+        let cpal = CpalSpec {
+            version: 0,
+            num_entries: 256,
+            firsts: (0..npal as u16).collect(),
+            records: (0..npal + 256).map(|i| [i as u8, (i >> 8) as u8, 1, 0xff]).collect(),
+            types: None,
+            labels: None,
+            entry_labels: None,
+        };
+        let data = syn_font("syn:cpal-overlap-257x256", 5, Some(colr_bytes(&c)), Some(cpal_bytes(&cpal)), 0);
+        for q in [Req { gids: vec![2], unicodes: vec![], flags: 0 }, Req { gids: vec![3], unicodes: vec![], flags: 0 }] {
+            run_request(s, "syn:cpal-overlap-257x256", &data, &q, Trust::WellFormed, true, false);
+        }
+    }
+    // (h) more than 65535 used COLRv1 layers (oracle only: the model is not built for lists of this size)
+    if th {
+        let mut c = ColrSpec::default();
+        // 7 distinguishable fills in rotation (65536 is not a multiple of 7: an index that wraps is visible)
+        let fills: Vec<usize> = (0..7u16).map(|k| fill(&mut c, 2 + k % 5, k % 2)).collect();
+        let total = 65536 + 300usize;
+        c.layers = (0..total).map(|i| fills[i % 7]).collect();
+        c.has_layer_list = true;
+        // groups of 255 layers, each group the root of one colour glyph
+        let mut base = vec![];
+        let mut first = 0usize;
+        let mut g = 10u16;
+        while first < total {
+            let num = (total - first).min(255);
+            let k = push(&mut c, PN::ColrLayers { num: num as u8, first: first as u32 });
+            base.push((g, k));
+            g += 1;
+            first += num;
+        }
+        let n = g as usize + 2;
+        c.v1_base = base;
+        let data = syn_font("syn:colr-65836-layers", n, Some(colr_bytes(&c)), Some(cpal_bytes(&one_palette(2))), 0);
+        let reqs = [
+            Req { gids: (0..n as u32).collect(), unicodes: vec![], flags: 0 },
+            Req { gids: vec![10, g as u32 - 1], unicodes: vec![], flags: 0 },
+            Req { gids: (10..g as u32).collect(), unicodes: vec![], flags: F_RETAIN_GIDS },
+        ];
+        for q in &reqs {
+            run_request(s, "syn:colr-65836-layers", &data, q, Trust::WellFormed, false, false);
+        }
+    }
+}
+
 // ---------------------------------------------------------------------------------------------
 // entry point
 // ---------------------------------------------------------------------------------------------
 
 pub fn run(cfg: &Config, s: &mut Session, r: &mut Rng) {
     let th = cfg.thorough();
+    run_special(s, r, th);
     // 1. synthetic fonts: COLR v0 + random CPAL
     for id in 0..(if th { 400 } else { 40 }) {
         let n = r.range(4, 30) as usize;
@@ -1618,7 +1904,9 @@ pub fn run(cfg: &Config, s: &mut Session, r: &mut Rng) {
         let e = r.range(1, 12) as u16;
         let variable = id % 2 == 1;
         let with_dsim = variable && id % 4 == 3;
-        let rows: Vec<usize> = if variable { (0..r.range(1, 3)).map(|_| r.range(1, 12) as usize).collect() } else { vec![] };
+        // without a DeltaSetIndexMap mostly one ItemVariationData (skrifa reads such indices with outer index 0)
+        let nsub = if !variable { 0 } else if with_dsim || id % 8 == 1 { r.range(1, 3) } else { 1 };
+        let rows: Vec<usize> = (0..nsub).map(|_| r.range(1, 12) as usize).collect();
         let dsim_len = if with_dsim { r.range(1, 20) as usize } else { 0 };
         let o = GenOpts { n_glyphs: n, num_entries: e, variable, with_dsim, rows: rows.clone(), dsim_len };
         let mut c = rand_colr(r, &o);
@@ -1648,6 +1936,59 @@ pub fn run(cfg: &Config, s: &mut Session, r: &mut Rng) {
         let label = format!("syn:colr-v1{}#{id}", if with_dsim { "-dsim" } else if variable { "-var" } else { "" });
         let data = syn_font(&label, n, Some(colr_bytes(&c)), Some(cpal_bytes(&rand_cpal(r, e))), axes);
         run_font(s, r, &label, &data, if th { 6 } else { 4 }, Trust::WellFormed, true);
+    }
+    // 2b. corrupted tables (single byte changes, truncation): the error classification of the real code
+    //     (table kept / silently dropped / subset_font Err / panic) against the model; no success demanded
+    for id in 0..(if th { 600 } else { 50 }) {
+        let n = r.range(6, 24) as usize;
+        let e = r.range(1, 8) as u16;
+        let variable = id % 2 == 1;
+        let with_dsim = variable && id % 4 == 3;
+        let nsub = if !variable { 0 } else { r.range(1, 3) };
+        let rows: Vec<usize> = (0..nsub).map(|_| r.range(1, 8) as usize).collect();
+        let dsim_len = if with_dsim { r.range(1, 12) as usize } else { 0 };
+        let o = GenOpts { n_glyphs: n, num_entries: e, variable, with_dsim, rows: rows.clone(), dsim_len };
+        let mut c = rand_colr(r, &o);
+        let axes = if variable { 2 } else { 0 };
+        if variable {
+            c.store = Some(rand_store(r, axes, &rows));
+            if with_dsim {
+                c.dsim = Some((0..dsim_len).map(|_| { let sidx = r.below(rows.len() as u64) as usize; ((sidx as u32) << 16) | r.below(rows[sidx] as u64) as u32 }).collect());
+            }
+        }
+        let colr0 = colr_bytes(&c);
+        let cpal0 = cpal_bytes(&rand_cpal(r, e));
+        for m in 0..(if th { 8 } else { 6 }) {
+            let mut colr = colr0.clone();
+            let mut cpal = cpal0.clone();
+            let target_cpal = r.chance(1, 5);
+            let t: &mut Vec<u8> = if target_cpal { &mut cpal } else { &mut colr };
+            match r.below(6) {
+                0 => {
+                    let k = r.below(t.len() as u64) as usize;
+                    t.truncate(k);
+                }
+                1 => {
+                    // header area
+                    let k = r.below(t.len().min(34) as u64) as usize;
+                    t[k] = *r.pick(&[0u8, 1, 2, 0xff, 0x80]);
+                }
+                _ => {
+                    for _ in 0..r.range(1, 3) {
+                        let k = r.below(t.len() as u64) as usize;
+                        t[k] = match r.below(4) {
+                            0 => 0,
+                            1 => 0xff,
+                            2 => t[k].wrapping_add(1),
+                            _ => r.next() as u8,
+                        };
+                    }
+                }
+            }
+            let label = format!("syn:colr-corrupt#{id}.{m}");
+            let data = syn_font(&label, n, Some(colr), Some(cpal), axes);
+            run_font(s, r, &label, &data, 2, Trust::Hostile, true);
+        }
     }
     // 3. corpus
     let corpus = [
